@@ -155,12 +155,33 @@ fn class_layout(c: usize) -> Layout {
     unsafe { Layout::from_size_align_unchecked(1usize << (20 + c), 4096) }
 }
 
+/// number of fresh large blocks that were pre-touched so far, and whether a
+/// pre-touch is in progress: the hang supervisor (child.rs) does not bill
+/// this time to the case
+pub static WARMED: AtomicU64 = AtomicU64::new(0);
+pub static WARMING: AtomicU64 = AtomicU64::new(0);
+
 unsafe fn big_alloc(c: usize) -> *mut u8 {
     let p = CACHE[c].swap(std::ptr::null_mut(), Ordering::AcqRel);
     if !p.is_null() {
         return p;
     }
-    unsafe { System.alloc(class_layout(c)) }
+    unsafe {
+        let p = System.alloc(class_layout(c));
+        if !p.is_null() {
+            // fault the whole block in now (slow in this sandbox, see above)
+            WARMING.fetch_add(1, Ordering::SeqCst);
+            let n = 1usize << (20 + c);
+            let mut i = 0;
+            while i < n {
+                std::ptr::write_volatile(p.add(i), 0);
+                i += 4096;
+            }
+            WARMED.fetch_add(1, Ordering::SeqCst);
+            WARMING.fetch_sub(1, Ordering::SeqCst);
+        }
+        p
+    }
 }
 
 unsafe fn big_free(c: usize, ptr: *mut u8) {
